@@ -152,6 +152,7 @@ def run(ctx: Ctx):
     if len(trees) < 1000:
         raise Machinery("too few trees")
     ctx.sample(trees[len(trees) // 2])
+    ntree = 0
     for v in trees:
         t = v["t"]
         ctx.case(("tree", repr(t)), len(t["par"]) > 2)
@@ -187,6 +188,32 @@ def run(ctx: Ctx):
         r3 = eq3(root, m)
         if r3 != {"eq": True, "eqr": True, "ne": False}:
             ctx.fail("P:C20:eq-child-order", {"t": t}, r3, None)
+        # the same tree as PARSED from text whose BEGIN/END names are written in another letter case: traversal by name and
+        # equality are case-insensitive in the component name (known and unknown kinds alike)
+        ntree += 1
+        if ntree % (3 if ctx.quick else 1) == 0:
+            import re as _re
+            text = root.to_ical().decode("utf-8")
+            recased = _re.sub(r"(?m)^(BEGIN|END):(.+?)\r?$", lambda mm: "".join(ch.lower() if rnd.random() < 0.6 else ch for ch in mm.group(1)) + ":" +
+                              "".join(ch.lower() if rnd.random() < 0.6 else ch for ch in mm.group(2)) + "\r", text)
+            try:
+                p_up, p_lo = Component.from_ical(text), Component.from_ical(recased)
+            except Exception as e:   # noqa: BLE001
+                ctx.fail("P:C20:walk-by-name", {"t": t, "route": "parsed", "exc": type(e).__name__}, str(e)[:100], None)
+                continue
+            pn = p_lo.walk()
+            if [c.name for c in pn] != [nodes[i - 1].name for i in v["pre"]]:
+                ctx.fail("P:C20:walk-preorder", {"t": t, "route": "parsed-recased"}, [c.name for c in pn], [nodes[i - 1].name for i in v["pre"]])
+            else:
+                for name, idxs in v["walks"].items():
+                    q = "".join(ch.lower() if rnd.random() < 0.5 else ch for ch in name)
+                    got = p_lo.walk(q)
+                    want = [pn[v["pre"].index(i)] for i in idxs]
+                    if len(got) != len(want) or any(a is not b for a, b in zip(got, want)):
+                        ctx.fail("P:C20:walk-by-name", {"t": t, "name": q, "route": "parsed-recased"}, [c.name for c in got], idxs)
+            r3 = eq3(p_up, p_lo)
+            if r3 != {"eq": True, "eqr": True, "ne": False}:
+                ctx.fail("P:C20:eq-name-case", {"t": t}, r3, None)
     # ---- pairs: equality
     pair_runs = [dict(MaxN=3, Names={"VEVENT", "VTODO"}, Props={"none", "p"}),
                  dict(MaxN=4, Names={"VEVENT", "VTODO"}, Props={"none"})]      # duplicates among three children
